@@ -70,7 +70,6 @@ type verdict struct {
 	inputStat runIn
 }
 
-var reLabel = regexp.MustCompile(`^lbl_[0-9]+$`)
 var reEvalish = regexp.MustCompile(`\b(eval|Function)\b`)
 
 type featureInfo struct {
@@ -206,20 +205,68 @@ func identSet(toks []token, withStrings bool) map[string]bool {
 	return s
 }
 
-func labelSeq(toks []token) string {
-	var b []string
-	for _, t := range toks {
-		if t.k == tIdent && reLabel.MatchString(t.s) {
-			b = append(b, t.s)
+// labelNames returns the identifiers in label position (declarations and break/continue targets).
+func labelNames(toks []token) map[string]bool {
+	out := map[string]bool{}
+	n := len(toks)
+	for i, t := range toks {
+		if t.k != tIdent || jsKeywords[t.s] {
+			continue
+		}
+		if i > 0 && (isWord(toks[i-1], "break") || isWord(toks[i-1], "continue")) && !t.nl {
+			out[t.s] = true
+			continue
+		}
+		if i+1 < n && isPunct(toks[i+1], ":") {
+			stmtPos := i == 0
+			if i > 0 && t.nl {
+				// ASI: a label may start a line after a complete expression statement
+				p := toks[i-1]
+				if p.k == tIdent || p.k == tNum || p.k == tStr || p.k == tRegex || p.k == tTemplate && (p.tmpl == 0 || p.tmpl == 3) || p.k == tPunct && (p.s == "]" || p.s == "++" || p.s == "--") {
+					stmtPos = true
+				}
+			}
+			if i > 0 && !stmtPos {
+				p := toks[i-1]
+				switch {
+				case p.k == tPunct && (p.s == ";" || p.s == "}" || p.s == ")" || p.s == ":"):
+					stmtPos = true
+				case p.k == tPunct && p.s == "{":
+					stmtPos = p.block
+				case p.k == tIdent && (p.s == "else" || p.s == "do"):
+					stmtPos = true
+				}
+				if p.k == tPunct && p.s == ":" {
+					// `c ? a : b` / `{k: v: ...}` are not label chains unless the previous is a label too
+					stmtPos = i >= 2 && toks[i-2].k == tIdent && out[toks[i-2].s]
+				}
+				if p.k == tPunct && p.s == ")" {
+					// conditional operator: (x) ? (y) z : ... cannot occur; but `a?(b):c` has `)` before ':' not before IDENT
+					stmtPos = true
+				}
+			}
+			if stmtPos {
+				out[t.s] = true
+			}
 		}
 	}
-	sort.Strings(b) // branches may legitimately be swapped: compare as a multiset
-	return strings.Join(b, " ")
+	return out
 }
 
 type evaluator struct {
-	pool    *pool
-	timeout int
+	pool       *pool
+	timeout    int // ms for the input run
+	outTimeout int // ms for each output run (0: 6x timeout, at least 2500)
+}
+
+func (ev *evaluator) outMs() int {
+	if ev.outTimeout > 0 {
+		return ev.outTimeout
+	}
+	if ev.timeout*6 < 2500 {
+		return 2500
+	}
+	return ev.timeout * 6
 }
 
 // evalProgram evaluates the program under all configs with one runner round trip.
@@ -265,7 +312,7 @@ func (ev *evaluator) evalProgram(input string, probes []string, cfgs []config) [
 	if probes == nil {
 		probes = deriveProbes(inToks)
 	}
-	rep, err := ev.pool.run(&runRequest{Input: input, Outs: outs, Probes: probes, Timeout: ev.timeout})
+	rep, err := ev.pool.run(&runRequest{Input: input, Outs: outs, Probes: probes, Timeout: ev.timeout, OutTimeout: ev.outMs()})
 	if err != nil {
 		for i := range vs {
 			if which[i] >= 0 {
@@ -298,6 +345,8 @@ func (ev *evaluator) evalProgram(input string, probes []string, cfgs []config) [
 			v.reason = "probe-failure"
 		case "reflection":
 			v.reason = "input-source-text-reflection"
+		case "errmsg":
+			v.reason = "input-error-message-reflection"
 		}
 		// C09: output compiles and is accepted again (judged whenever the input parses)
 		if !o.Compile {
@@ -360,10 +409,20 @@ func (ev *evaluator) evalProgram(input string, probes []string, cfgs []config) [
 				continue
 			}
 		}
-		if a, b := labelSeq(inToks), labelSeq(outToks); a != b {
-			v.kind, v.property = "labels", "C02"
-			v.detail = "label identifiers changed: " + clip(a, 100) + " | " + clip(b, 100)
-			continue
+		{
+			inL := labelNames(inToks)
+			var bad []string
+			for l := range labelNames(outToks) {
+				if !inL[l] {
+					bad = append(bad, l)
+				}
+			}
+			if len(bad) > 0 {
+				sort.Strings(bad)
+				v.kind, v.property = "labels", "C02"
+				v.detail = "label names in the output that are not labels of the input: " + clip(strings.Join(bad, ","), 200)
+				continue
+			}
 		}
 	}
 	return vs
